@@ -199,6 +199,10 @@ pub struct World {
     pub arm_crash: Option<(u32, u64)>,
     /// count storage ticks per step (tick hook installed around every step)
     pub count_ticks: bool,
+    /// C13: keep the bytes of every file of a SQLCipher node's directory as they are at each
+    /// transaction tick of the current step (label, file name, bytes)
+    pub capture_sidecars: bool,
+    pub sidecar_captures: Vec<(String, String, Vec<u8>)>,
     pub last_crash: Option<(u32, usize, u64, String)>,
     /// Debug + Display rendering of the last returned value (C14)
     pub last_debug: String,
@@ -281,6 +285,8 @@ impl World {
             prev_effective: BTreeSet::new(),
             arm_crash: None,
             count_ticks: false,
+            capture_sidecars: false,
+            sidecar_captures: vec![],
             last_crash: None,
             last_debug: String::new(),
             last_tick_labels: vec![],
@@ -504,16 +510,37 @@ impl World {
             Some((sid, k)) if sid == step.id => Some(k),
             _ => None,
         };
-        let hook_on = (self.count_ticks || armed_k.is_some()) && self.nodes[node].cfg.backend.is_sqlite();
+        let capture = self.capture_sidecars && self.nodes[node].cfg.backend == BackendKind::SqliteCipher;
+        let captures = std::rc::Rc::new(std::cell::RefCell::new(Vec::<(String, String, Vec<u8>)>::new()));
+        self.sidecar_captures.clear();
+        let hook_on = (self.count_ticks || armed_k.is_some() || capture) && self.nodes[node].cfg.backend.is_sqlite();
         if hook_on {
             let ts = tick_state.clone();
             let tl = tick_labels.clone();
             let dir = self.nodes[node].dir.clone();
             let image = self.nodes[node].dir.with_extension("crashimage");
+            let cap = captures.clone();
             mdk_sqlite_storage::verif::set_thread_hook(Some(Box::new(move |p| {
                 use mdk_sqlite_storage::verif::Point;
                 if matches!(p, Point::Lock) {
                     return;
+                }
+                if capture && matches!(p, Point::Txn(_)) {
+                    // inside an open transaction: the rollback journal / WAL is live now and is
+                    // gone again when the call returns; keep the bytes for the scanner
+                    if let Ok(rd) = std::fs::read_dir(&dir) {
+                        for e in rd.flatten() {
+                            if e.path().is_file() {
+                                if let Ok(b) = std::fs::read(e.path()) {
+                                    let name = e.file_name().to_string_lossy().to_string();
+                                    let mut c = cap.borrow_mut();
+                                    if !c.iter().any(|(_, n, old)| *n == name && *old == b) {
+                                        c.push((format!("{p:?}"), name, b));
+                                    }
+                                }
+                            }
+                        }
+                    }
                 }
                 let n = {
                     let mut t = ts.borrow_mut();
@@ -539,6 +566,7 @@ impl World {
         if want_labels {
             self.last_tick_labels = tick_labels.borrow().clone();
         }
+        self.sidecar_captures = std::mem::take(&mut *captures.borrow_mut());
         let (ticks, crash_label) = {
             let t = tick_state.borrow();
             (t.0, t.1.clone())
